@@ -194,13 +194,22 @@ CONTRACTS[I + 'get_incompatibility_deriving_nodes'] = dict(
                                           "e[0] in deriving_nodes or (isinstance(e[0], SelectionChoiceNode) and e[0] in option_decision_nodes)))",
             'added-nodes-covered': "forall('n:Ref', implies(n in deriving_nodes and not inD0(n) and not (n in confirmed_nodes) "
                                    "and n != target_node, covered(n, deriving_nodes)))",
+            'added-nodes-derive-a-collected-node': "forall('n:Ref', implies(n in deriving_nodes and not inD0(n) and n != target_node, "
+                                                   "exists('m:Ref', DE(n, m) and m in deriving_nodes)))",
+            'added-choices-lost-every-option': "forall('c:Ref', 'm:Ref', implies(c in deriving_nodes and not inD0(c) and c != target_node and "
+                                               "not (c in confirmed_nodes) and isinstance(c, SelectionChoiceNode) and DE(c, m), m in deriving_nodes))",
             'choices-are-choices': "forall('c:Ref', implies(c in option_decision_nodes, isinstance(c, SelectionChoiceNode)))",
+            'choices-derive-target': "forall('c:Ref', implies(c in option_decision_nodes, exists('k:Int', (c, target_node, k, EdgeType.DERIVES) in graph.edge_set)))",
         }),
         'for option_decision_node in option_decision_nodes': dict(processed='P2', invariant={
             'grows': "target_node in deriving_nodes and forall('x:Ref', implies(inD0(x), x in deriving_nodes))",
             'target-covered': "covered(target_node, deriving_nodes)",
             'added-nodes-covered': "forall('n:Ref', implies(n in deriving_nodes and not inD0(n) and not (n in confirmed_nodes) "
                                    "and n != target_node, covered(n, deriving_nodes)))",
+            'added-nodes-derive-a-collected-node': "forall('n:Ref', implies(n in deriving_nodes and not inD0(n) and n != target_node, "
+                                                   "exists('m:Ref', DE(n, m) and m in deriving_nodes)))",
+            'added-choices-lost-every-option': "forall('c:Ref', 'm:Ref', implies(c in deriving_nodes and not inD0(c) and c != target_node and "
+                                               "not (c in confirmed_nodes) and isinstance(c, SelectionChoiceNode) and DE(c, m), m in deriving_nodes))",
         }),
     },
     ensures={
@@ -210,6 +219,13 @@ CONTRACTS[I + 'get_incompatibility_deriving_nodes'] = dict(
         'every-deriving-node-of-the-target-collected': ('property', "covered(target_node, result)"),
         'every-deriving-node-of-collected-nodes-collected': ('property',
             "forall('n:Ref', implies(n in result and not inD0(n) and not (n in confirmed_nodes) and n != target_node, covered(n, result)))"),
+        # over-pruning direction: nothing is collected that does not derive a collected node, and a selection choice is
+        # collected only when every one of its options is
+        'collected-nodes-derive-a-collected-node': ('property',
+            "forall('n:Ref', implies(n in result and not inD0(n) and n != target_node, exists('m:Ref', DE(n, m) and m in result)))"),
+        'collected-choices-lost-every-option': ('property',
+            "forall('c:Ref', 'm:Ref', implies(c in result and not inD0(c) and c != target_node and not (c in confirmed_nodes) "
+            "and isinstance(c, SelectionChoiceNode) and DE(c, m), m in result))"),
     },
     modifies=[],
 )
